@@ -309,6 +309,16 @@ func (s *bsys) structure(i int, t *Term) {
 			s.upper(i, 1<<31-1)
 			s.axiom["GCAServer.equipmentReportsOffset < 2^31 (a timeslot value)"] = true
 		}
+		if len(t.A) == 1 && t.A[0].K == KFA && (t.A[0].S == "logMaxLineBytes" || t.A[0].S == "logMaxBytes") {
+			s.lower(i, 0)
+			s.upper(i, 1<<56)
+			s.axiom["EventLogger limits are non-negative byte counts below 2^56 (the constructor is only called with positive constants: C18 rule CFG)"] = true
+		}
+		if len(t.A) == 1 && t.A[0].K == KFA && t.A[0].S == "logSizeBytes" {
+			s.lower(i, 0)
+			s.upper(i, 1<<57)
+			s.axiom["EventLogger.logSizeBytes is twice the total length of the stored lines (C18 rule ACCOUNT), hence within [0, 2^57]"] = true
+		}
 	}
 }
 
@@ -1548,7 +1558,7 @@ func (p *Program) LenSummary(fn *ssa.Function, res int) (lb int64, exact bool) {
 	fi := p.Info(fn)
 	min, max := inf, int64(-inf)
 	for _, b := range fn.Blocks {
-		if len(b.Instrs) == 0 {
+		if len(b.Instrs) == 0 || b == b.Parent().Recover {
 			continue
 		}
 		ret, ok := b.Instrs[len(b.Instrs)-1].(*ssa.Return)
@@ -1617,7 +1627,7 @@ func (p *Program) IntSummary(fn *ssa.Function, res int) *IntSum {
 		le[q] = true
 	}
 	for _, b := range fn.Blocks {
-		if len(b.Instrs) == 0 {
+		if len(b.Instrs) == 0 || b == b.Parent().Recover {
 			continue
 		}
 		ret, ok := b.Instrs[len(b.Instrs)-1].(*ssa.Return)
@@ -1699,7 +1709,7 @@ func (p *Program) LenEqResults(fn *ssa.Function) [][2]int {
 			i, j := slices[a], slices[b]
 			ok := true
 			for _, blk := range fn.Blocks {
-				if len(blk.Instrs) == 0 {
+				if len(blk.Instrs) == 0 || blk == blk.Parent().Recover {
 					continue
 				}
 				ret, isRet := blk.Instrs[len(blk.Instrs)-1].(*ssa.Return)
@@ -1722,3 +1732,27 @@ func (p *Program) LenEqResults(fn *ssa.Function) [][2]int {
 	p.lenEq[fn] = out
 	return out
 }
+
+// Sys is the exported view of a constraint system at a program point.
+type Sys struct{ s *bsys }
+
+// SysFor returns the constraint system (branch facts, structural constraints,
+// loop invariants) for the point of instruction at.
+func (fi *FuncInfo) SysFor(at ssa.Instruction) *Sys { return &Sys{fi.sysFor(at)} }
+
+// ProveGE proves t >= c.
+func (x *Sys) ProveGE(t *Term, c int64) bool { return x.s.proveLE(0, x.s.node(t), -c) }
+
+// ProveLE proves t <= c.
+func (x *Sys) ProveLE(t *Term, c int64) bool { return x.s.proveLE(x.s.node(t), 0, c) }
+
+// ProveDiffLE proves a - b <= c.
+func (x *Sys) ProveDiffLE(a, b *Term, c int64) bool {
+	return x.s.proveLE(x.s.node(a), x.s.node(b), c)
+}
+
+// Describe renders the known range of t.
+func (x *Sys) Describe(t *Term) string { return x.s.describe(x.s.node(t)) }
+
+// LenTerm builds the term len(x).
+func LenTerm(x *Term) *Term { return lenTerm(x) }
